@@ -384,5 +384,21 @@ pub fn run(c: &mut Ctx) {
             c.fail("month parsing accepts a non-name or rejects a name", &format!("{:?} -> {}", s, pm));
         }
     }
+    // collecting a sequence of any length (repetitions, more than seven items) gives exactly its members
+    for _ in 0..c.n(3000, 30000) {
+        let len = match c.rng.below(4) {
+            0 => c.rng.below(8),
+            1 => 7 + c.rng.below(4),
+            _ => c.rng.below(40),
+        } as usize;
+        let bias = *c.rng.pick(&WD);
+        let seq: Vec<Weekday> = (0..len).map(|_| if c.rng.chance(2, 3) { bias } else { *c.rng.pick(&WD) }).collect();
+        let want = seq.iter().fold(0u8, |w, d| w | 1 << (*d as u8));
+        let got = guard(|| word_of(seq.iter().copied().collect::<WeekdaySet>()));
+        c.count(if len > 7 { "collect:longer-than-7" } else { "collect:up-to-7" });
+        if got != Ok(want) {
+            c.fail("collecting weekdays into a set does not give exactly the members of the sequence", &format!("{:?} -> {:?}, expected word {want}", seq, got));
+        }
+    }
     c.sample("ws.iter 74 2 5 7 (set {Tue,Thu,Sun} from Wed, schedule front/back/front/back...)");
 }
